@@ -653,6 +653,44 @@ def mc_eq(prog: Program) -> RuleResult:
     return r
 
 
+# --------------------------------------------------------------------------------------- MC-ARGS
+def mc_args(prog: Program) -> RuleResult:
+    """'leave the field containing exactly the elements Python semantics dictate': a positional mutator stores through the builtin method of
+    the same name with the caller's position, whatever the position is (every int is a legal index for list.insert: negative ones count
+    from the end, -1 included).  Decision table of the mutator with its helpers inlined; a position is never None."""
+    from ..dtable import explore as _explore, Sym as _Sym, term as _term
+
+    r = RuleResult("MC-ARGS", "positional mutators store at the caller's position through the builtin of the same name", floor=2)
+    mc = prog.cls(MC)
+    for c in [c for c in prog.subclasses(mc.qual, strict=True) if _builtin_base(prog, c) == "list"]:
+        helpers = {g.qual for g in c.methods.values() if g.name.startswith("_") and not g.name.startswith("__")}
+        for mname, npos in (("insert", 2), ("append", 1)):
+            f = prog.lookup(c.qual, mname)
+            if f is None or f.cls is None or f.cls.qual.startswith("ext:"):
+                continue
+            params = f.params
+            preset = {("is", "None", p): False for p in params[1:]}
+            try:
+                paths = _explore(prog, f, [_Sym(p) for p in params], self_type=c.qual, inline=lambda q: q in helpers and not q.endswith("._on_add"), generic_loops=True, preset=preset)
+            except AnalysisError as e:
+                raise AnalysisError(f"MC-ARGS: {c.name}.{mname}: {e}")
+            bad = None
+            for val, out, calls in paths:
+                stores = [x for x in calls if getattr(x, "fn", "").startswith("super().") and x.fn.split(".")[-1] in ("append", "insert", "extend", "__setitem__", "__iadd__")]
+                label = ", ".join(f"{' '.join(map(str, a[1:]))}={v}" for a, v in val.items() if a not in preset) or "always"
+                if len(stores) != 1:
+                    bad = bad or f"[{label}] {len(stores)} builtin stores"
+                    continue
+                st = stores[0]
+                if st.fn.split(".")[-1] != mname:
+                    bad = bad or f"[{label}] stores through list.{st.fn.split('.')[-1]}"
+                elif mname == "insert" and (len(st.args) != 2 or _term(st.args[0]) != params[1]):
+                    bad = bad or f"[{label}] inserts at {_term(st.args[0]) if st.args else '?'} instead of {params[1]}"
+            r.check(bad is None, f"{c.name}.{mname}#same-builtin-same-position", site(f), f"{len(paths)} path(s)", f"list.{mname} with the caller's arguments on every path",
+                    f"{bad}: for that position the element ends up somewhere else than list.{mname} puts it (x.f.insert(-1, c) appends instead of inserting before the last element)")
+    return r
+
+
 def run(prog: Program, tier: str) -> List[RuleResult]:
     alias = pd_alias(prog)
-    return [mc_cover(prog), mc_hook(prog), alias, pd_aug(prog, not alias.failed), pd_seq(prog), pd_single(prog), mc_once(prog), pd_fresh(prog), mc_eq(prog), user_truth(prog, ["property_descriptor.property_descriptor", "property_descriptor.monitored_container", "property_descriptor.property_descriptor_relation"], 2)]
+    return [mc_cover(prog), mc_hook(prog), alias, pd_aug(prog, not alias.failed), pd_seq(prog), pd_single(prog), mc_once(prog), pd_fresh(prog), mc_eq(prog), mc_args(prog), user_truth(prog, ["property_descriptor.property_descriptor", "property_descriptor.monitored_container", "property_descriptor.property_descriptor_relation"], 2)]
